@@ -540,6 +540,30 @@ func (rw *rewriter) preOS(c *astutil.Cursor) {
 			}
 		}
 	case *ast.CallExpr:
+		// R6: a *os.File handed to a parameter of interface type (io.Writer,
+		// io.Reader, ...) is wrapped, so that writes made through the
+		// interface - by a bufio.Writer, fmt.Fprintf, io.Copy - are
+		// file-system steps like direct ones
+		if sig, isSig := rw.info.TypeOf(tn.Fun).(*types.Signature); isSig {
+			for i, arg := range tn.Args {
+				at, isPtr := rw.info.TypeOf(arg).(*types.Pointer)
+				if !isPtr || !namedIs(at.Elem(), "os", "File") {
+					continue
+				}
+				var pt types.Type
+				switch np := sig.Params().Len(); {
+				case sig.Variadic() && i >= np-1:
+					if sl, ok := sig.Params().At(np - 1).Type().(*types.Slice); ok {
+						pt = sl.Elem()
+					}
+				case i < np:
+					pt = sig.Params().At(i).Type()
+				}
+				if pt != nil && types.IsInterface(pt) {
+					tn.Args[i] = call(rw.sos("IO"), arg)
+				}
+			}
+		}
 		// R9, tuning knobs: the buffer size handed to NewLineReader becomes a
 		// per-case knob (simos.Knob returns the literal when no knob is set)
 		if id, isID := tn.Fun.(*ast.Ident); isID && id.Name == "NewLineReader" && len(tn.Args) == 2 {
@@ -550,6 +574,14 @@ func (rw *rewriter) preOS(c *astutil.Cursor) {
 		}
 		sel, ok := tn.Fun.(*ast.SelectorExpr)
 		if !ok {
+			return
+		}
+		if rw.pkgOf(sel.X) == "bufio" && len(tn.Args) == 1 && (sel.Sel.Name == "NewWriter" || sel.Sel.Name == "NewReader") {
+			// R9: the default size of a buffered writer/reader over one of the
+			// REPL's files is a knob too (the unchanged tree has none; a change
+			// that introduces one gets its block boundaries exercised)
+			sel.Sel = ast.NewIdent(sel.Sel.Name + "Size")
+			tn.Args = append(tn.Args, call(rw.sos("Knob"), &ast.BasicLit{Kind: token.STRING, Value: `"bufio"`}, &ast.BasicLit{Kind: token.INT, Value: "4096"}))
 			return
 		}
 		repl, ok := fileMethods[sel.Sel.Name]
@@ -988,6 +1020,15 @@ func (rw *rewriter) probe(name string, m ast.Expr, at ast.Node, fn string) ast.S
 }
 
 func (rw *rewriter) withMapProbes(list []ast.Stmt, quiet bool, fn string) []ast.Stmt {
+	if quiet && len(list) > 0 {
+		// a statement list inside a loop that ends with a return runs at most
+		// once per call, whatever the size of the table the loop walks: its
+		// write probes may have a scheduling point without making the number
+		// of scheduling points depend on earlier cases
+		if _, isRet := list[len(list)-1].(*ast.ReturnStmt); isRet {
+			quiet = false
+		}
+	}
 	wname := "MapW"
 	if quiet {
 		wname = "MapWQ"
